@@ -164,6 +164,8 @@ func (g *ScenarioGun) shootStep(step Request, sample *netsample.Sample, ammoName
 	if err != nil {
 		return fmt.Errorf("%s g.Do %w", op, err)
 	}
+	// the status was received: keep it in the sample even if reading the body or a postprocessor fails
+	sample.SetUserProto(resp.StatusCode)
 
 	// Log
 	processors := step.Postprocessors
@@ -361,7 +363,6 @@ func (g *ScenarioGun) reportErr(sample *netsample.Sample, err error) {
 		return
 	}
 	sample.AddTag(EmptyTag)
-	sample.SetProtoCode(0)
 	sample.SetErr(err)
 	g.base.Aggregator.Report(sample)
 }
